@@ -662,3 +662,74 @@ def run(pid, tier, replay=None):
     if pid == "C23":
         return run_c23(pid, tier, replay)
     raise vf.MachineryError("srcinfo engine does not serve " + pid)
+
+
+# ----------------------------------------------------------------------------------------------
+# development: regenerate spec/LayoutSkel.tla (needed when featgen's text changes: the driver then reports
+# HARNESS:skeleton-stale).   python3 engines/srcinfo.py --regen-skeletons
+
+SKEL_FEATURES = ["pkg", "import", "public", "nested", "enum", "map", "group", "oneof", "p3opt", "extrange", "extend", "service",
+                 "customopt", "msglit", "srcret", "stdopt", "default", "reserved", "jsonname", "required", "features"]
+SKEL_HEADER = '''------------------------------ MODULE LayoutSkel ------------------------------
+(* Token skeletons of valid files for Layout.tla.  GENERATED at development time by
+   `srcinfo skeleton` (harness/srcinfo/layout.go) with an independent scanner, then kept as a
+   static part of the specification:
+     x            hand-written extras (constructs the featgen files lack: adjacent string literals,
+                  signed / hex / octal / float / exponent / inf / nan spellings, string escapes and raw multi-byte text, <...> message literals, an Any type URL,
+                  import public / weak, groups, ranges to max, streaming rpcs, empty statements,
+                  fully-qualified names with a leading dot); parse-only, it does not link
+     p2, p3, ed   harness/_common/featgen main.proto for the maximal valid feature set of each syntax
+                  (without the comments / weird_layout features: Layout supplies the trivia)
+     s3, s2       two small featgen files (quick tier)
+   toks[j] = <<text, class>>, gaps[g + 1] = default white space of gap g.  The driver checks on
+   every run that the featgen skeletons still equal featgen's rendering (empty layout).       *)
+EXTENDS Naturals, Sequences
+
+'''
+
+
+def regen_skeletons():
+    import subprocess
+
+    def ok(s, f):
+        return {"p3opt": s == "proto3", "group": s != "proto3", "extrange": s != "proto3", "extend": s != "proto3",
+                "required": s != "proto3", "default": s != "proto3", "features": s == "editions"}.get(f, True)
+    reqs = [{"id": "x"}]
+    for sid, syn in (("p2", "proto2"), ("p3", "proto3"), ("ed", "editions")):
+        reqs.append({"id": sid, "syntax": syn, "features": [f for f in SKEL_FEATURES if ok(syn, f)]})
+    reqs.append({"id": "s3", "syntax": "proto3", "features": ["pkg", "enum", "stdopt", "oneof", "service"]})
+    reqs.append({"id": "s2", "syntax": "proto2", "features": ["customopt", "msglit", "default", "extrange", "import"]})
+    binary = vf.build_driver("srcinfo")
+    out = subprocess.run([binary, "skeleton"], input="\n".join(json.dumps(r) for r in reqs) + "\n", capture_output=True,
+                         text=True, cwd=vf.REPO, env=vf.go_env())
+    if out.returncode != 0:
+        raise vf.MachineryError(out.stderr)
+
+    def q(t):
+        return '"' + t.replace("\\", "\\\\").replace('"', '\\"') + '"'
+
+    def tok(t, c, n):
+        return "<<%s, %s>>" % (q(t), q(c)) if int(n) == len(t) else "<<%s, %s, %s>>" % (q(t), q(c), n)
+    mods, ids = [], []
+    for line in out.stdout.splitlines():
+        sk = json.loads(line)
+        ids.append(sk["id"])
+        toks = ",\n      ".join(", ".join(tok(*t) for t in sk["toks"][i:i + 6]) for i in range(0, len(sk["toks"]), 6))
+        gaps = ",\n      ".join(", ".join("<<%s>>" % ", ".join(q(g) for g in gp) for gp in sk["gaps"][i:i + 8])
+                                for i in range(0, len(sk["gaps"]), 8))
+        feats = "{" + ", ".join(q(f) for f in sk["features"]) + "}"
+        mods.append("Skel_%s ==\n  [id |-> %s, syntax |-> %s, features |-> %s,\n   toks |-> <<\n      %s>>,\n   gaps |-> <<\n      %s>>]\n"
+                    % (sk["id"], q(sk["id"]), q(sk["syntax"]), feats, toks, gaps))
+        print(sk["id"], len(sk["toks"]), "tokens", len(sk["text"]), "bytes")
+    tail = "\nSkelAll == {%s}\nSkel(id) == CASE %s\n" % (", ".join(q(i) for i in ids),
+                                                         "\n             [] ".join("id = %s -> Skel_%s" % (q(i), i) for i in ids))
+    with open(os.path.join(vf.SPEC, "LayoutSkel.tla"), "w") as fh:
+        fh.write(SKEL_HEADER + "\n".join(mods) + tail + "=" * 77 + "\n")
+
+
+if __name__ == "__main__":
+    import sys
+    if sys.argv[1:] == ["--regen-skeletons"]:
+        regen_skeletons()
+    else:
+        print("usage: srcinfo.py --regen-skeletons")
